@@ -358,6 +358,88 @@ def raise_callers():
     return out
 
 
+def rsa_state_accesses():
+    """Every read/write of a mutable attribute of Python_RSAKey (an attribute assigned through
+    self.<name> in a method other than __init__: the blinding pair) with whether it happens inside
+    `with self._lock:`.  (method, attribute, is_store, locked)"""
+    tree = parse('tlslite/utils/python_rsakey.py')
+    cls = find_def(tree, 'Python_RSAKey')
+    if cls is None:
+        raise Refuse('class Python_RSAKey not found')
+    methods = [n for n in cls.body if isinstance(n, ast.FunctionDef)]
+    mutable = set()
+    for m in methods:
+        if m.name == '__init__':
+            continue
+        for n in ast.walk(m):
+            if isinstance(n, ast.Attribute) and isinstance(n.ctx, ast.Store) and isinstance(n.value, ast.Name) and \
+                    n.value.id == 'self':
+                mutable.add(n.attr)
+    out = []
+
+    def is_lock(item):
+        e = item.context_expr
+        return isinstance(e, ast.Attribute) and e.attr == '_lock' and isinstance(e.value, ast.Name) and e.value.id == 'self'
+
+    def walk(node, meth, locked):
+        if isinstance(node, ast.With):
+            inner = locked or any(is_lock(i) for i in node.items)
+            for i in node.items:
+                walk(i.context_expr, meth, locked)
+            for st in node.body:
+                walk(st, meth, inner)
+            return
+        if isinstance(node, ast.Attribute) and isinstance(node.value, ast.Name) and node.value.id == 'self' and \
+                node.attr in mutable:
+            out.append((meth, node.attr, isinstance(node.ctx, ast.Store), locked))
+        for c in ast.iter_child_nodes(node):
+            walk(c, meth, locked)
+    for m in methods:
+        if m.name == '__init__':
+            continue
+        for st in m.body:
+            walk(st, m.name, False)
+    if not out:
+        raise Refuse('no access to mutable state found in Python_RSAKey: the analysis no longer matches the code')
+    return out
+
+
+def inline_tail_helpers(fd, cls, depth=3):
+    """Normalisation for the source fingerprints: a statement `return self.h(a, b, ...)` whose callee h is
+    a method of the same class, called with plain names equal to h's own parameter names, is replaced by
+    the body of h (so that moving a branch verbatim into a private helper does not change the fingerprint).
+    Anything else is left alone."""
+    if cls is None or depth == 0:
+        return fd
+    methods = {n.name: n for n in cls.body if isinstance(n, ast.FunctionDef)}
+
+    def expand(stmts, seen):
+        out = []
+        for st in stmts:
+            for fld in ('body', 'orelse', 'finalbody'):
+                b = getattr(st, fld, None)
+                if isinstance(b, list) and b and isinstance(b[0], ast.stmt):
+                    setattr(st, fld, expand(b, seen))
+            if isinstance(st, ast.Try):
+                for h in st.handlers:
+                    h.body = expand(h.body, seen)
+            c = st.value if isinstance(st, ast.Return) else None
+            if isinstance(c, ast.Call) and isinstance(c.func, ast.Attribute) and isinstance(c.func.value, ast.Name) and \
+                    c.func.value.id == 'self' and c.func.attr in methods and c.func.attr not in seen and not c.keywords:
+                h = methods[c.func.attr]
+                params = [a.arg for a in h.args.args][1:]
+                if all(isinstance(a, ast.Name) for a in c.args) and [a.id for a in c.args] == params[:len(c.args)] and \
+                        not h.args.vararg and not h.args.kwarg and len(c.args) == len(params):
+                    body = strip_doc(h).body
+                    out += expand(body, seen | {c.func.attr})
+                    continue
+            out.append(st)
+        return out
+    fd = ast.parse(ast.unparse(fd)).body[0]
+    fd.body = expand(fd.body, {fd.name})
+    return fd
+
+
 def fingerprints():
     out = []
     for rel, quals in sorted(MODELLED.items()):
@@ -366,7 +448,8 @@ def fingerprints():
             fd = find_def(tree, q)
             if fd is None:
                 raise Refuse('modelled function %s not found in %s' % (q, rel))
-            h = hashlib.sha256(dump(strip_doc(fd)).encode()).hexdigest()[:16]
+            cls = find_def(tree, q.rsplit('.', 1)[0]) if '.' in q else None
+            h = hashlib.sha256(dump(strip_doc(inline_tail_helpers(strip_doc(fd), cls))).encode()).hexdigest()[:16]
             out.append((rel.split('/')[-1] + ':' + q, h))
     return out
 
@@ -377,6 +460,7 @@ class C10Tables(object):
         sites = sign_sites()
         callers = raise_callers()
         fps = fingerprints()
+        acc = rsa_state_accesses()
         o = ['(* GENERATED by translator/units_c10.py from %s -- do not edit. *)' % REPO,
              'From Coq Require Import ZArith List Bool String.',
              'Import ListNotations.', 'Local Open Scope Z_scope.', 'Local Open Scope string_scope.', '',
@@ -406,6 +490,10 @@ class C10Tables(object):
               '   (helper, calling function, inside try/except TLSInternalError -> internal_error alert, #args) *)',
               'Definition raise_callers : list (string * string * bool * Z) := [',
               ';\n'.join('  (%s, %s, %s, %d)' % (sl(h), sl(f), b(t), n) for h, f, t, n in callers), '].', '',
+              '(* python_rsakey.py Python_RSAKey: every access to the mutable blinding state:',
+              '   (method, attribute, is a store, inside `with self._lock`) *)',
+              'Definition rsa_state_accesses : list (string * string * bool * bool) := [',
+              ';\n'.join('  (%s, %s, %s, %s)' % (sl(m), sl(a), b(st), b(lk)) for m, a, st, lk in acc), '].', '',
               '(* sha256/16 of the ast of every function modelled by hand in Model/C10_*.v *)',
               'Definition src_fingerprints : list (string * string) := [',
               ';\n'.join('  (%s, %s)' % (sl(k), sl(v)) for k, v in fps), '].']
